@@ -33,6 +33,15 @@ func (d *PathDecoder) attrValueCompletionAtPos(ctx context.Context, attr *hclsyn
 				return candidates, nil
 			}
 
+			// The cursor may be placed before the expression (right after "=",
+			// see isPosInsideAttrExpr). Expressions derive the edit range from
+			// their own range and reset its end to the cursor, which in this
+			// case leaves the range ending before it starts. The candidate is
+			// inserted at the cursor then.
+			if candidate.TextEdit.Range.End.Byte < candidate.TextEdit.Range.Start.Byte {
+				candidate.TextEdit.Range.Start = candidate.TextEdit.Range.End
+			}
+
 			candidates.List = append(candidates.List, candidate)
 			count++
 		}
